@@ -1705,6 +1705,10 @@ def _(E, c):
 
 @model('Vec::push', 'VecDeque::push_back')
 def _(E, c):
+    t0 = E.deref(c.args[0])
+    if isinstance(t0, BigVecV):
+        E.store(c.args[0], BigVecV(t0.name, t0.hidden, t0.items + (c.args[1],), t0.ty))
+        return UNIT
     v = vec_of(E, c.args[0])
     E.store(c.args[0], VecV(v.items + (c.args[1],), v.ty))
     return UNIT
@@ -1740,6 +1744,23 @@ def _(E, c):
 
 
 VEC_LEN = {}
+
+
+class BigVecV:
+    """a vector with an unexamined prefix: `hidden` elements nobody on this path has looked at individually (symbolic
+    count, membership by an uninterpreted predicate) followed by explicit items.  Supports len / is_empty / contains /
+    push: enough for code that only bounds and extends a large list (e.g. the 256-signer limit)."""
+    __slots__ = ('name', 'hidden', 'items', 'ty')
+
+    def __init__(self, name, hidden, items=(), ty=None):
+        self.name, self.hidden, self.items, self.ty = name, hidden, tuple(items), ty
+
+    def __repr__(self):
+        return 'BigVec(%s+%d)' % (self.name, len(self.items))
+
+
+VEC_LEN[BigVecV] = lambda E, t: IntV(t.hidden + len(t.items), 'usize')
+SPECIAL_LEN[BigVecV] = lambda E, t: IntV(t.hidden + len(t.items), 'usize')
 
 
 @model('Vec::is_empty', 're:^<.*\\[.*\\]>::is_empty$', 'slice::is_empty', 'VecDeque::is_empty', 're:^<impl \\[.*\\]>::is_empty$')
@@ -1901,6 +1922,16 @@ def _(E, c):
 
 @model('re:^<.*\\[.*\\]>::contains$', 'slice::contains', 'Vec::contains', 're:^<impl \\[.*\\]>::contains$')
 def _(E, c):
+    t0 = E.deref(c.args[0])
+    if isinstance(t0, BigVecV):
+        x = c.args[1]
+        for it in t0.items:
+            if E.ctx.branch(eq_call(E, c, it, x)):
+                return True
+        # membership in the unexamined prefix: one fresh boolean per query, only possible when the prefix is non-empty
+        b = E.ctx.fresh_bool('%s.hidden_contains' % t0.name)
+        E.ctx.assume(z3.Implies(b, t0.hidden >= 1))
+        return b
     t = vec_of(E, c.args[0])
     x = c.args[1]
     for it in t.items:
